@@ -42,7 +42,7 @@ Inductive event :=
 | Call (c : callkind)
 | Ret (rc : Z)
 | Raised
-| Deadlock                                (* a non-reentrant lock would be taken twice: excluded by [ops_wf] *)
+| Deadlock                                (* a non-reentrant lock would be taken twice: never emitted *)
 | Fuel                                    (* never emitted: see ConnInv.no_fuel *)
 | Obs (w : wher) (connected has_sock want_write regw : bool).
 
@@ -147,7 +147,8 @@ Variable c : cfg.
 Variable nested : list acall -> st -> st.
 
 (* one user-callback invocation.  held: the call site wraps the callback in _in_callback_mutex
-   (a non-reentrant Lock).  Event, observation at entry, then the script of this invocation. *)
+   (a non-reentrant Lock): on_connect, on_disconnect, on_publish; the four socket callbacks run
+   without it.  Event, observation at entry, then the script of this invocation. *)
 Definition run_site (si : site) (held : bool) (ev : event) (s : st) : st :=
   if held && incb s then emit Deadlock s else
   let s1 := obs (WCb si) (emit ev s) in
@@ -184,7 +185,7 @@ Definition sock_close (r : reason) (s : st) : st :=
   | Some id =>
       let s1 := emit (ConnEnd id r) (set_sock None s) in
       let s2 := call_unregw (Some id) s1 in
-      if c_sockcb c then run_site SiClose true (SockClose id) s2 else s2
+      if c_sockcb c then run_site SiClose false (SockClose id) s2 else s2
   end.
 
 Definition do_on_disconnect (rc : Z) (fb : bool) (s : st) : st :=
@@ -269,7 +270,7 @@ Definition reconnect_body (ok : bool) (s : st) : st * option Z :=
   else
     let id := nsock s3 + 1 in
     let s4 := emit (SockNew id) (set_regw false (set_sock (Some id) (set_nsock id s3))) in
-    let s5 := if c_sockcb c then run_site SiOpen true (SockOpen id) s4 else s4 in
+    let s5 := if c_sockcb c then run_site SiOpen false (SockOpen id) s4 else s4 in
     let (s6, rc) := packet_queue KConnect s5 in (s6, Some rc).
 
 Definition api_reconnect (ok : bool) (s : st) : st * option Z :=
@@ -430,10 +431,8 @@ Definition all_scripts (q : scripts) : list (list acall) :=
 Definition script_has_reconnect (q : scripts) : bool :=
   existsb (existsb is_reconnect) (all_scripts q).
 
-(* reconnect() from inside a callback self-deadlocks when on_socket_open/on_socket_close are
-   installed (C18's open findings): such scripts are excluded.  Without the register-write
-   callbacks their two sites do not exist; without open/close theirs do not. *)
-Definition op_wf (c : cfg) (o : op) : bool :=
-  negb (c_sockcb c && script_has_reconnect (o_scr o)).
+(* no structural restriction on operations is needed: since on_socket_open/on_socket_close run without
+   _in_callback_mutex, no call made from inside a callback can self-deadlock (ConnFuel.no_deadlock) *)
+Definition op_wf (c : cfg) (o : op) : bool := true.
 Definition ops_wf (c : cfg) (ops : list op) : bool := forallb (op_wf c) ops.
 Definition cfg_ok (c : cfg) : bool := (c_proto c =? 3) || (c_proto c =? 4) || (c_proto c =? 5).
